@@ -703,14 +703,18 @@ def load (r0 : Repo) (depth : Int) (genesis : Hdr) : Repo × Option Fail :=
       | .ok (r1, loaded) =>
         if loaded.isEmpty then (r1, some (.err "No branches loaded"))
         else
-          match longestOf r1.arena loaded with
-          | none => (r1, some (.panic "Longest: Last() on empty branch"))
-          | some lg =>
-            let sorted := sortByPH r1.arena loaded
-            let r2 := sorted.foldl loadLinkStep { r1 with branches := [], longest := lg }
-            match loadHistorical r2 with
-            | .error e => (r2, some e)
-            | .ok r3 => (r3, none)
+          let sorted := sortByPH r1.arena loaded
+          let r2 := sorted.foldl loadLinkStep { r1 with branches := [] }
+          -- (repaired) only a branch that could be linked can be the longest
+          if r2.branches.isEmpty then (r2, some (.err "No branches linked"))
+          else
+            match longestOf r2.arena r2.branches with
+            | none => (r2, some (.panic "Longest: Last() on empty branch"))
+            | some lg =>
+              let r2 := { r2 with longest := lg }
+              match loadHistorical r2 with
+              | .error e => (r2, some e)
+              | .ok r3 => (r3, none)
 
 /-! ### read API -/
 
